@@ -1,6 +1,7 @@
 package main
 
 import (
+	"bytes"
 	"encoding/json"
 	"fmt"
 	"hash/crc32"
@@ -60,47 +61,64 @@ type item struct {
 // parse splits a frame into whole items; bad != "" when the frame does not consist of whole,
 // intact records (a frame boundary inside a record, a damaged body, foreign bytes).
 func parse(data []byte) (items []item, bad string) {
+	items, bad, _ = parseOpt(data, false)
+	return
+}
+
+// parseOpt: with stats set (scenario on the relay's own topic "stats") the JSON reports that the
+// relay's status reporter publishes there are recognised, skipped and counted.
+func parseOpt(data []byte, stats bool) (items []item, bad string, reports int) {
 	for len(data) > 0 {
 		c := data[0]
+		if stats && (c == '[' || bytes.HasPrefix(data, []byte("null"))) {
+			dec := json.NewDecoder(bytes.NewReader(data))
+			var v interface{}
+			if err := dec.Decode(&v); err == nil {
+				data = data[dec.InputOffset():]
+				reports++
+				continue
+			}
+		}
 		if c >= 'a' && c <= 'z' {
 			items = append(items, item{ID: 100 + uint64(c-'a'), Tiny: true, size: 1})
 			data = data[1:]
 			continue
 		}
 		if c != 'R' {
-			return items, "foreign-bytes"
+			return items, "foreign-bytes", reports
 		}
 		if len(data) < headerLen {
-			return items, "frame-boundary-inside-record"
+			return items, "frame-boundary-inside-record", reports
 		}
 		var id, snd uint64
 		var seq, ln int
 		var crc uint32
 		if n, err := fmt.Sscanf(string(data[1:headerLen]), "%08x%08x%06x%08x%08x", &id, &snd, &seq, &ln, &crc); n != 5 || err != nil {
-			return items, "damaged-header"
+			return items, "damaged-header", reports
 		}
 		if len(data) < headerLen+ln {
-			return items, "frame-boundary-inside-record"
+			return items, "frame-boundary-inside-record", reports
 		}
 		if crc32.ChecksumIEEE(data[headerLen:headerLen+ln]) != crc {
-			return items, "crc"
+			return items, "crc", reports
 		}
 		items = append(items, item{ID: id, Sender: snd, Seq: seq, size: headerLen + ln})
 		data = data[headerLen+ln:]
 	}
-	return items, ""
+	return items, "", reports
 }
 
 type finfo struct {
-	items []item
-	bad   string
+	items   []item
+	bad     string
+	reports int // frames (or parts) that are the relay's own status reports (topic stats only)
 }
 
 // newDigest returns the per-connection frame parser. It reads the received frames as ONE stream of
 // records: when a frame ends inside a record (which the property forbids) the frame is marked, the
 // partial record is carried over, and if the following frame continues it the record is still
 // recognised - so the report names the record that straddles the boundary and parsing stays in step.
-func newDigest() func(*hubkit.Frame) {
+func newDigest(stats bool) func(*hubkit.Frame) {
 	var carry []byte
 	return func(f *hubkit.Frame) {
 		data := f.Data
@@ -108,7 +126,7 @@ func newDigest() func(*hubkit.Frame) {
 		if len(carry) > 0 {
 			data = append(carry, f.Data...)
 			carry = nil
-			if it, bad := parse(data); bad == "" || len(it) > 0 {
+			if it, bad, _ := parseOpt(data, stats); bad == "" || len(it) > 0 {
 				if len(it) > 0 && !it[0].Tiny {
 					straddle = fmt.Sprintf("record id %d (sender %d seq %d) began in the previous frame and ends in this one", it[0].ID, it[0].Sender, it[0].Seq)
 				}
@@ -116,7 +134,7 @@ func newDigest() func(*hubkit.Frame) {
 				data = f.Data // the continuation is not there: judge this frame on its own
 			}
 		}
-		it, bad := parse(data)
+		it, bad, reports := parseOpt(data, stats)
 		if bad == "frame-boundary-inside-record" {
 			// keep the unfinished record for the next frame
 			used := 0
@@ -131,7 +149,7 @@ func newDigest() func(*hubkit.Frame) {
 			}
 			bad += ": " + straddle
 		}
-		f.Info = finfo{it, bad}
+		f.Info = finfo{it, bad, reports}
 		f.Data = nil
 	}
 }
@@ -169,7 +187,7 @@ func runScenario(k *hubkit.Kit, c *Case, dist map[string]int) map[uint64]*peerIn
 				buf = 4096
 			}
 			tt, pth := c.Topic+o.TS, path+o.TS
-			p := k.JoinBuf(o.N, tt, pth, o.Scopes, newDigest(), buf)
+			p := k.JoinBuf(o.N, tt, pth, o.Scopes, newDigest(tt == "stats"), buf)
 			peers[o.N] = &peerInfo{p: p, scopes: o.Scopes, joinedAt: i, leftAt: -1, ts: o.TS}
 			order = append(order, p)
 			if p.Refused != "" && o.TS != "" {
@@ -280,6 +298,13 @@ func runScenario(k *hubkit.Kit, c *Case, dist map[string]int) map[uint64]*peerIn
 		s := Seen{N: p.Name, Scopes: pi.scopes, Frames: []FrameObs{}, TS: pi.ts, Refused: p.Refused}
 		for _, f := range p.Frames() {
 			fi := f.Info.(finfo)
+			if fi.reports > 0 {
+				// the reporter's messages took queue slots the script knows nothing about
+				c.Discard = "status-reporter-spoke-during-scenario"
+				if len(fi.items) == 0 && fi.bad == "" {
+					continue
+				}
+			}
 			fo := FrameObs{MT: f.MT, Syms: []uint64{}, Bad: fi.bad}
 			for _, it := range fi.items {
 				fo.Syms = append(fo.Syms, it.ID)
@@ -607,7 +632,7 @@ func oracle(c Case, idx int, peers map[uint64]*peerInfo, out *ChildOut) {
 					total++
 				}
 			}
-			if dc := documentedCap(c.Conf); total <= dc {
+			if dc := documentedCap(c.Conf); total <= dc && c.Discard == "" {
 				viol("cut-below-capacity", fmt.Sprintf("reader %d was cut by the relay although only %d messages were sent to it in all and the relay was configured with BufferSize %d (documented capacity %d)", s.N, total, c.Conf, dc))
 			}
 		}
@@ -658,6 +683,13 @@ func childMain(in, out string) {
 		if c.Discard == "" {
 			oracle(*c, i, peers, co)
 			c.Witness = buildWitness(c)
+		} else if c.Discard == "status-reporter-spoke-during-scenario" {
+			// no witness (unknown messages sat in the queues), but integrity, order and completeness of
+			// what the writers sent are judged all the same
+			oracle(*c, i, peers, co)
+			for _, pi := range peers {
+				k.Leave(pi.p)
+			}
 		} else {
 			for _, pi := range peers {
 				k.Leave(pi.p)
